@@ -15,7 +15,8 @@ Proof. reflexivity. Qed.
 (* stale test: strictly more conf_ver change than the steps account for *)
 Lemma stale_cmp_ok : forall a b, stale_cmp_gt a b = (b <? a).
 Proof. reflexivity. Qed.
-Lemma stale_cmp_src_ok : stale_cmp_src = "changes > op.ConfVerChanged(region)".
+Lemma stale_cmp_src_ok : stale_cmp_src =
+  "((region.GetRegionEpoch()).GetConfVer() - (op.RegionEpoch()).GetConfVer()) > op.ConfVerChanged(region)".
 Proof. reflexivity. Qed.
 
 Lemma higher_priority_ok : forall a b, higher_priority a b = (b <? a).
@@ -31,22 +32,17 @@ Lemma skel_toLocked_ok : skel_trk_toLocked =
   [IfE "dst < statusCount && validTrans[trk.current][dst]" [Assign "trk.current" "= dst"; Call "setTime"; Ret] []; Ret].
 Proof. reflexivity. Qed.
 Lemma skel_CheckExpired_ok : skel_trk_CheckExpired =
-  [Lock "trk.rw"; DeferUnlock "trk.rw";
-   SwitchE [[Call "Since"; IfE "time.Since(trk.reachTimes[CREATED]) < exp" [Ret] []; Call "toLocked"; Ret]]; Ret].
+  [Lock "trk.rw"; DeferUnlock "trk.rw"; SwitchE [[Call "Since"; IfE "time.Since(trk.reachTimes[CREATED]) < exp" [Ret] []; Call "toLocked"; Ret]]; Ret].
 Proof. reflexivity. Qed.
 Lemma skel_CheckTimeout_ok : skel_trk_CheckTimeout =
-  [Lock "trk.rw"; DeferUnlock "trk.rw";
-   SwitchE [[Call "Since"; IfE "time.Since(trk.reachTimes[STARTED]) < wait" [Ret] []; Call "toLocked"; Ret]]; Ret].
+  [Lock "trk.rw"; DeferUnlock "trk.rw"; SwitchE [[Call "Since"; IfE "time.Since(trk.reachTimes[STARTED]) < wait" [Ret] []; Call "toLocked"; Ret]]; Ret].
 Proof. reflexivity. Qed.
 
 Lemma skel_op_Check_ok : skel_op_Check =
-  [Call "IsEnd"; IfE "o.IsEnd()" [Ret] []; DeferE [Call "CheckTimeout"]; Call "LoadInt32";
-   ForE [Call "IsFinish"; IfE "o.steps[int(step)].IsFinish(region)" [Call "StoreInt32"] [Ret]]; Ret].
+  [Call "IsEnd"; IfE "o.IsEnd()" [Ret] []; DeferE [Call "CheckTimeout"]; Call "LoadInt32"; Assign "local1" ":= atomic.LoadInt32(&o.currentStep)"; ForE [Call "IsFinish"; IfE "o.steps[int(local1)].IsFinish(region)" [Call "StoreInt32"] [Ret]; Assign "local1" "++"]; Ret].
 Proof. reflexivity. Qed.
 Lemma skel_op_ConfVerChanged_ok : skel_op_ConfVerChanged =
-  [Call "LoadInt32"; Assign "current" ":= atomic.LoadInt32(&o.currentStep)";
-   IfE "current == int32(len(o.steps))" [Assign "current" "--"] [];
-   ForE [Call "ConfVerChanged"; Assign "total" "+= step.ConfVerChanged(region)"]; Ret].
+  [Call "LoadInt32"; Assign "local1" ":= atomic.LoadInt32(&o.currentStep)"; IfE "local1 == int32(len(o.steps))" [Assign "local1" "--"] []; ForE [Call "ConfVerChanged"; Assign "total" "+= each#v(o.steps[0 : local1+1]).ConfVerChanged(region)"]; Ret].
 Proof. reflexivity. Qed.
 Lemma skel_op_CheckSuccess_ok : skel_op_CheckSuccess =
   [Call "LoadInt32"; IfE "atomic.LoadInt32(&o.currentStep) >= int32(len(o.steps))" [Call "To"; Ret] []; Ret].
@@ -56,46 +52,30 @@ Lemma skel_op_CheckTimeout_ok : skel_op_CheckTimeout =
 Proof. reflexivity. Qed.
 
 Lemma skel_Dispatch_ok : skel_oc_Dispatch =
-  [Call "GetOperator";
-   IfE "op != nil"
-     [Call "Check"; Call "Status";
-      SwitchE [[Call "checkStaleOperator"; IfE "source == DispatchFromHeartBeat && oc.checkStaleOperator(op, step, region)" [Ret] []; Call "SendScheduleCommand"];
-               [Call "pushHistory"; Call "RemoveOperator"; IfE "oc.RemoveOperator(op)" [Call "PromoteWaitingOperator"] []];
-               [Call "RemoveOperator"; IfE "oc.RemoveOperator(op)" [Call "PromoteWaitingOperator"] []];
-               [Call "removeOperatorWithoutBury";
-                IfE "oc.removeOperatorWithoutBury(op)" [Call "Status"; Call "Cancel"; Call "buryOperator"; Call "PromoteWaitingOperator"] []]]] []].
+  [Call "GetOperator"; IfE "(oc.GetOperator(region.GetID())) != nil" [Call "Check"; Call "Status"; SwitchE [[Call "checkStaleOperator"; IfE "source == DispatchFromHeartBeat && oc.checkStaleOperator((oc.GetOperator(region.GetID())), ((oc.GetOperator(region.GetID())).Check(region)), region)" [Ret] []; Call "SendScheduleCommand"]; [Call "pushHistory"; Call "RemoveOperator"; IfE "oc.RemoveOperator((oc.GetOperator(region.GetID())))" [Call "PromoteWaitingOperator"] []]; [Call "RemoveOperator"; IfE "oc.RemoveOperator((oc.GetOperator(region.GetID())))" [Call "PromoteWaitingOperator"] []]; [Call "removeOperatorWithoutBury"; IfE "oc.removeOperatorWithoutBury((oc.GetOperator(region.GetID())))" [Call "Status"; Call "Cancel"; Call "buryOperator"; Call "PromoteWaitingOperator"] []]]] []].
 Proof. reflexivity. Qed.
 
 Lemma skel_AddOperator_ok : skel_oc_AddOperator =
-  [Lock "oc"; DeferUnlock "oc"; Call "exceedStoreLimitLocked"; Call "checkAddOperator";
-   IfE "oc.exceedStoreLimitLocked(ops...) || !oc.checkAddOperator(ops...)" [ForE [Call "Cancel"; Call "buryOperator"]; Ret] [];
-   ForE [Call "addOperatorLocked"; IfE "!oc.addOperatorLocked(op)" [Ret] []]; Ret].
+  [Lock "oc"; DeferUnlock "oc"; Call "exceedStoreLimitLocked"; Call "checkAddOperator"; IfE "oc.exceedStoreLimitLocked(ops...) || !oc.checkAddOperator(ops...)" [ForE [Call "Cancel"; Call "buryOperator"]; Ret] []; ForE [Call "addOperatorLocked"; IfE "!oc.addOperatorLocked(each#v(ops))" [Ret] []]; Ret].
 Proof. reflexivity. Qed.
 
 Lemma skel_addOperatorLocked_ok : skel_oc_addOperatorLocked =
-  [IfE "ok" [Call "removeOperatorLocked"; Call "Replace"; Call "buryOperator"] []; Call "Start";
-   IfE "!op.Start()" [Call "Status"; Ret] []; Call "GetRegion";
-   IfE "region != nil" [Call "Check"; IfE "step != nil" [Call "SendScheduleCommand"] []] []; Ret].
+  [IfE "(oc.operators[(op.RegionID())])#1" [Call "removeOperatorLocked"; Call "Replace"; Call "buryOperator"] []; Call "Start"; IfE "!op.Start()" [Call "Status"; Ret] []; Call "GetRegion"; IfE "(oc.cluster.GetRegion(op.RegionID())) != nil" [Call "Check"; IfE "local1 != nil" [Call "SendScheduleCommand"] []] []; Ret].
 Proof. reflexivity. Qed.
 
 Lemma skel_RemoveOperator_ok : skel_oc_RemoveOperator =
-  [Lock "oc"; Call "removeOperatorLocked"; Unlock "oc"; IfE "removed" [Call "Cancel"; Call "buryOperator"] []; Ret].
+  [Lock "oc"; Call "removeOperatorLocked"; Unlock "oc"; IfE "(oc.removeOperatorLocked(op))" [Call "Cancel"; Call "buryOperator"] []; Ret].
 Proof. reflexivity. Qed.
 
 Lemma skel_buryOperator_ok : skel_oc_buryOperator =
-  [Call "Status"; Call "IsEndStatus"; IfE "!operator.IsEndStatus(st)" [Call "Status"; Call "Cancel"] []; Call "Put"].
+  [Call "Status"; Call "IsEndStatus"; IfE "!operator.IsEndStatus((op.Status()))" [Call "Status"; Call "Cancel"] []; Call "Put"].
 Proof. reflexivity. Qed.
 
 Lemma skel_PromoteWaitingOperator_ok : skel_oc_PromoteWaitingOperator =
-  [Lock "oc"; DeferUnlock "oc";
-   ForE [Call "GetOperator"; IfE "ops == nil" [Ret] []; Call "exceedStoreLimitLocked"; Call "checkAddOperator";
-         IfE "oc.exceedStoreLimitLocked(ops...) || !oc.checkAddOperator(ops...)" [ForE [Call "Cancel"; Call "buryOperator"]] []];
-   ForE [Call "addOperatorLocked"]].
+  [Lock "oc"; DeferUnlock "oc"; ForE [Call "GetOperator"; IfE "local1 == nil" [Ret] []; Call "exceedStoreLimitLocked"; Call "checkAddOperator"; IfE "oc.exceedStoreLimitLocked(local1...) || !oc.checkAddOperator(local1...)" [ForE [Call "Cancel"; Call "buryOperator"]] []]; ForE [Call "addOperatorLocked"]].
 Proof. reflexivity. Qed.
 
 (* SendMsg: nothing without a leader; region id, region epoch and the leader are stamped on the command *)
 Lemma skel_SendMsg_ok : skel_SendMsg =
-  [Call "GetLeader"; IfE "region.GetLeader() == nil" [Ret] [];
-   Assign "msg.Header" "= &pdpb.ResponseHeader{ClusterId: s.clusterID}"; Assign "msg.RegionId" "= region.GetID()";
-   Assign "msg.RegionEpoch" "= region.GetRegionEpoch()"; Call "GetLeader"; Assign "msg.TargetPeer" "= region.GetLeader()"].
+  [Call "GetLeader"; IfE "region.GetLeader() == nil" [Ret] []; Assign "msg.Header" "= &pdpb.ResponseHeader{ClusterId: s.clusterID}"; Assign "msg.RegionId" "= region.GetID()"; Assign "msg.RegionEpoch" "= region.GetRegionEpoch()"; Call "GetLeader"; Assign "msg.TargetPeer" "= region.GetLeader()"].
 Proof. reflexivity. Qed.
